@@ -6,13 +6,13 @@ from .. import common, gen, ref
 from . import c01
 
 PROP = "C05"
-RULE = ("bounded-exhaustive token sequences over a 24-token alphabet (literals incl. string literals whose payload is a separator, name, call, all "
+RULE = ("bounded-exhaustive token sequences over a 25-token alphabet (literals incl. string literals whose payload is a separator, name, call, all "
         "delimiters, separators, prefix/infix/postfix operators, `not`, `?`, `:`) checked in the executor, every accepted one judged against L_max; "
         "single-token faults (replace / delete / insert / swap with every alphabet symbol) at every position of generated valid programs; "
         "character-level corruptions of valid programs. distinct class = abstracted token sequence of an accepted input (literals -> E), "
         "and (fault kind, token kind) of a rejected fault")
-ALPHABET = ["1", "'a'", "true", "x", "f", "(", ")", "[", "]", "{", "}", ",", ";", "+", "*", "!", "not", "++", "?", ":", "=", "in", "','", "':'"]
-FAULT_SYMS = ALPHABET + ["']'", "')'", "'}'", "-", "--", "AND", "&&", "2.5", "\"s\"", "y", "g"]
+ALPHABET = ["1", "'a'", "true", "x", "f", "(", ")", "[", "]", "{", "}", ",", ";", "+", "*", "!", "not", "++", "?", ":", "=", "in", "','", "':'", "'u"]  # 'u: an unterminated string
+FAULT_SYMS = ALPHABET + ["']'", "')'", "'}'", "-", "--", "AND", "&&", "2.5", "\"s\"", "y", "g", "'abc", "\"abc", "1.2.3", "1..2", "0.1.2", "'"]
 # characters whose code point ends in the byte of a blank or a delimiter: they are ordinary name characters
 ALIAS = ["\u0120", "\u2120", "\u010a", "\u010d", "\u0109", "\u0128", "\u0129", "\u015b", "\u015d", "\u017b", "\u017d", "\u012c", "\u013b", "\u00a0", "\u3000", "\u2028"]
 
